@@ -428,3 +428,24 @@ Proof.
   - pose proof (qn_insert0 QN bx_r0 99 bx_r0_ok) as E. rewrite E1, E2 in E. discriminate.
   - pose proof (qn_insert0 QN bx_r0 99 (qok_boostc_boost _ bx_r0_ok)) as E. rewrite E1, E2 in E. discriminate.
 Qed.
+
+(* ------------------------------------------------------------ non-vacuity on the boosted loop *)
+(* boost factor 2: two Python tasks are queued (run order [0; 1]); an accepted task_interrupt of
+   task 1 puts its new handle 2 = HStep 1 (Some e) in front of task 0's; the next loop step
+   delivers e to task 1 while task 0 has not run *)
+Definition bi_s0 : st := init_st true 2 [1%Q] [] [] 0.
+Definition bi_acts : list action := [ASpawn SPy (Ret 0%Z); ASpawn SPy (Ret 1%Z)].
+Definition bi_s : st := fold_left do_action bi_acts bi_s0.
+
+Example bi_example :
+  actions_ok bi_s0 bi_acts /\ InvC qok_boostc None bi_s /\
+  let s' := fst (lib_call 0 (OTaskInterrupt 1 (EUser 1)) bi_s) in
+  lib_call 0 (OTaskInterrupt 1 (EUser 1)) bi_s = (s', LSusp YNone [InSleep0]) /\
+  rq_items (ready bi_s) = [0; 1] /\ rq_items (ready s') = [2; 0] /\
+  geth s' 2 = mkH (HStep 1 (Some (EUser 1))) false /\
+  map fstate_ (futs (run_one s')) = [FPending; FExc (EUser 1)].
+Proof.
+  assert (A : actions_ok bi_s0 bi_acts) by (simpl; auto).
+  split; [exact A|]. split; [apply (Inv09_prio_boostc 2 [1%Q] [] [] 0 bi_acts A)|].
+  vm_compute. repeat split; reflexivity.
+Qed.
